@@ -121,6 +121,9 @@ def frame(fp, rid="_rid_"):
 
 
 VIA = {
+    # the frame object carries a group_by mark (group_by marks and returns its receiver): operations that are not
+    # about groups take no notice of it
+    "marked_by_group_by": lambda d: d.group_by([k for k in dict.keys(d) if k != "_rid_"][0]),
     "copy": lambda d: d.copy(),
     "deepcopy": lambda d: d.deepcopy(),
     "slice_all": lambda d: d.slice(list(range(d.nrow))),
